@@ -4,6 +4,7 @@ import random
 
 from lib import tlc, harness
 from lib.tlaval import to_tla
+from mpf.platforms.virtual import VirtualHardwarePlatform
 
 LEVEL = 'model_checking'
 NONE = -1000
@@ -674,14 +675,375 @@ def handmade_lights():
     return res
 
 
+# ------------------------------------------------------------------------------ several coils operated concurrently
+# (specs/Coil/CoilMulti.tla).  One machine with three driver platforms: `virtual` (the default), `smart_virtual` and the
+# harness' own platform class registered through `mpf: platforms:` (a board that times pulses up to 100 ms only).  Output
+# numbers are unique per platform only: k, k2 and k21 all sit on output 1 of their board; kx / k_1 have other numbers
+# (11: a number that starts like 1); the names are prefixes of each other.
+REC_PLATFORM = 'c08rec'
+
+
+class RecPlatform(VirtualHardwarePlatform):
+
+    """The harness' own driver platform (mpf: platforms: c08rec)."""
+
+    def __init__(self, machine):
+        super().__init__(machine)
+        self.features['max_pulse'] = 100
+
+    def __repr__(self):
+        return '<Platform.C08Rec>'
+
+
+def M(name, num, plat=None, defPulseMs=10, maxPulseMs=0, allowEnable=False, maxHP=0, maxHoldDur=0, defTE=100):
+    return dict(name=name, num=num, plat=plat or 'virtual', platMax=100 if plat == REC_PLATFORM else 255, defPulseMs=defPulseMs,
+                maxPulseMs=maxPulseMs, allowEnable=allowEnable, maxHP=maxHP, maxHoldDur=maxHoldDur, defTE=defTE)
+
+
+MTABLE = [
+    M('k', 1, allowEnable=True, maxHoldDur=1000),
+    M('k2', 1, 'smart_virtual', defPulseMs=20, allowEnable=True, maxHoldDur=2000),
+    M('k21', 1, REC_PLATFORM, maxHP=50, maxHoldDur=1000),
+    M('kx', 2, maxPulseMs=400),
+    M('k_1', 11, 'smart_virtual', allowEnable=True),
+]
+MNAMES = [c['name'] for c in MTABLE]
+MMS = [NONE, 200, 300, 600]       # 200: timed by virtual / smart_virtual, by software on the harness' platform
+MTE = [NONE, 1500]
+# the machines (sets of coils operated in one schedule) schedules are generated for
+MSUBSETS = [('k', 'k2'), ('k', 'k2'), ('k', 'k21'), ('k2', 'k21'), ('k', 'kx'), ('k2', 'k_1'), ('k', 'k2', 'k21'), ('k', 'k2', 'kx'),
+            ('k', 'k2', 'k_1'), ('k2', 'k21', 'kx'), tuple(MNAMES)]
+
+
+def mrec(c):
+    return {k: v for k, v in c.items() if k != 'name'}
+
+
+def mcfg(names=None):
+    return {c['name']: mrec(c) for c in MTABLE if names is None or c['name'] in names}
+
+
+def write_machine_multi(scratch):
+    d = os.path.join(scratch, 'machines', 'coils2')
+    os.makedirs(d + '/config', exist_ok=True)
+    with open(d + '/config/config.yaml', 'w') as f:
+        f.write('#config_version=6\nmpf:\n  platforms:\n    %s: drivers.c08.RecPlatform\n' % REC_PLATFORM)
+        f.write('hardware:\n  platform: virtual, smart_virtual, %s\n' % REC_PLATFORM)
+        f.write('coils:\n')
+        for c in MTABLE:
+            n = c['name']
+            f.write('  %s:\n    number: %d\n    default_pulse_ms: %d\n    default_timed_enable_ms: %d\n' % (n, c['num'], c['defPulseMs'], c['defTE']))
+            if c['plat'] != 'virtual':
+                f.write('    platform: %s\n' % c['plat'])
+            if c['maxPulseMs']:
+                f.write('    max_pulse_ms: %dms\n' % c['maxPulseMs'])
+            if c['allowEnable']:
+                f.write('    allow_enable: true\n')
+            if c['maxHP']:
+                f.write('    max_hold_power: %s\n' % (c['maxHP'] / 100.0))
+            if c['maxHoldDur']:
+                f.write('    max_hold_duration: %sms\n' % c['maxHoldDur'])
+            f.write('    pulse_events: %s_pulse\n    enable_events: %s_enable\n    disable_events: %s_disable\n'
+                    '    timed_enable_events: %s_timed_enable\n' % (n, n, n, n))
+    return d
+
+
+def write_mc_multi(wd, subsets, maxops, ms=MMS, te=MTE, steps=STEPS, maxtime=3000, props=True, name='MMC.cfg'):
+    st = lambda xs: ', '.join(map(str, xs))
+    with open(wd + '/CoilMultiMC.tla', 'w') as f:
+        f.write("""---------------------------- MODULE CoilMultiMC ----------------------------
+EXTENDS CoilMulti
+MCNONE == %d
+MCConfigs == {%s}
+MCMs == {%s}
+MCTe == {%s}
+MCSteps == {%s}
+=============================================================================
+""" % (NONE, ',\n  '.join(to_tla(mcfg(sub)) for sub in subsets), st(ms), st(te), st(steps)))
+    with open(wd + '/' + name, 'w') as f:
+        f.write("""SPECIFICATION Spec
+CONSTANTS
+  Configs <- MCConfigs
+  NONE <- MCNONE
+  MsVals <- MCMs
+  TeVals <- MCTe
+  Steps <- MCSteps
+  MaxTime = %d
+  MaxOps = %d
+%sCHECK_DEADLOCK FALSE
+""" % (maxtime, maxops, (''.join('PROPERTY %s\n' % p for p in MPROPS) + ''.join('INVARIANT %s\n' % i for i in MINVS)) if props else ''))
+
+
+MPROPS = ['Independent', 'KeepsPending', 'OffOnTime']
+MINVS = ['Envelope', 'RefuseNotCommand', 'SoftwarePulseEnds', 'HoldWatchdog', 'NothingOverdue']
+_HM = {}
+
+
+class RecDriverT:
+    """Wraps a platform driver object and records every command that reaches it, with the (virtual) time."""
+
+    def __init__(self, inner, log, name, clock):
+        self._inner = inner
+        self._log = log
+        self._name = name
+        self._clock = clock
+
+    def _rec(self, cmd):
+        self._log.append((self._name, cmd, self._clock.get_time()))
+
+    def pulse(self, pulse_settings):
+        self._rec(['pulse', int(pulse_settings.duration), pct(pulse_settings.power), 0, 0])
+        return self._inner.pulse(pulse_settings)
+
+    def enable(self, pulse_settings, hold_settings):
+        self._rec(['enable', int(pulse_settings.duration), pct(pulse_settings.power), pct(hold_settings.power), 0])
+        return self._inner.enable(pulse_settings, hold_settings)
+
+    def timed_enable(self, pulse_settings, hold_settings):
+        self._rec(['timed_enable', int(pulse_settings.duration), pct(pulse_settings.power), pct(hold_settings.power),
+                   int(hold_settings.duration)])
+        return self._inner.timed_enable(pulse_settings, hold_settings)
+
+    def disable(self):
+        self._rec(['disable', 0, 0, 0, 0])
+        return self._inner.disable()
+
+    def __getattr__(self, item):
+        return getattr(self._inner, item)
+
+
+def _machine_multi(mdir):
+    if 'h' not in _HM:
+        h = harness.boot(None, machine_dir=mdir, platform=None)     # no forced platform: the platforms of the config
+        _HM['h'] = h
+        _HM['log'] = []
+        plats = set()
+        for c in MTABLE:
+            coil = h.machine.coils[c['name']]
+            want = {'virtual': 'VirtualHardwarePlatform', 'smart_virtual': 'SmartVirtualHardwarePlatform', REC_PLATFORM: 'RecPlatform'}
+            if type(coil.platform).__name__ != want[c['plat']] or str(coil.hw_driver.number) != str(c['num']):
+                raise RuntimeError('coil %s sits on %r number %r' % (coil.name, coil.platform, coil.hw_driver.number))
+            if int(coil.platform.features['max_pulse']) != c['platMax']:
+                raise RuntimeError('coil %s: platform max_pulse %r' % (coil.name, coil.platform.features['max_pulse']))
+            plats.add(id(coil.platform))
+            coil.hw_driver = RecDriverT(coil.hw_driver, _HM['log'], coil.name, h.machine.clock)
+        if len(plats) != 3:
+            raise RuntimeError('the coils do not sit on three platforms')
+    return _HM['h']
+
+
+def exec_multi(job):
+    mdir, sched, via_events = job
+    try:
+        return _exec_multi(mdir, sched, via_events)
+    except Exception as ex:  # pylint: disable=broad-except
+        import traceback
+        _HM.pop('h', None)
+        return {'cfg': mcfg(), 'ev': [{'op': 'crash', 'what': repr(ex)[:300]}], '_tb': traceback.format_exc()[-1500:]}
+
+
+def _exec_multi(mdir, sched, via_events):
+    h = _machine_multi(mdir)
+    m = h.machine
+    log = _HM['log']
+    for n in MNAMES:
+        m.coils[n].disable()
+    h.advance_time_and_run(10)
+    del log[:]
+    tbase = m.clock.get_time()
+    ev = []
+
+    def call(coil, fn, evname, kw):
+        kw = {k: v for k, v in kw.items() if v is not None}
+        if not via_events:
+            try:
+                fn(**kw)
+                return False
+            except Exception:  # refused  pylint: disable=broad-except
+                return True
+        before = h._exception
+        m.events.post('%s_%s' % (coil.name, evname), **kw)
+        try:
+            h.advance_time_and_run(0)
+            h.advance_time_and_run(0)
+        except Exception:  # the handler raised: the request was refused  pylint: disable=broad-except
+            return True
+        return h._exception is not None and h._exception is not before
+
+    for s in list(sched) + [{'op': 'adv', 'd': 1000}] * 3:
+        op = s['op']
+        if op == 'init':
+            continue
+        rec = {'op': op}
+        refused = False
+        if op == 'adv':
+            rec['d'] = s['d']
+            h.advance_time_and_run(s['d'] * (1 + EPS) / 1000.0)
+        else:
+            coil = m.coils[s['c']]
+            rec['c'] = s['c']
+            if op == 'pulse':
+                rec['ms'] = s['ms']
+                refused = call(coil, coil.pulse, 'pulse', dict(pulse_ms=arg(s['ms'])))
+            elif op == 'enable':
+                refused = call(coil, coil.enable, 'enable', {})
+            elif op == 'timed_enable':
+                rec['te'] = s['te']
+                refused = call(coil, coil.timed_enable, 'timed_enable', dict(timed_enable_ms=arg(s['te'])))
+            elif op == 'disable':
+                refused = call(coil, coil.disable, 'disable', {})
+            else:
+                raise ValueError(op)
+            if not (via_events and refused):
+                h.advance_time_and_run(0)
+        rec['err'] = bool(refused)
+        # what reached EVERY coil's platform driver during the step, with the time (model time starts at 1)
+        rec['cmds'] = {n: [] for n in MNAMES}
+        for (n, cmd, t) in log:
+            rec['cmds'][n].append(cmd + [1 + int(round((t - tbase) * 1000.0 / (1 + EPS)))])
+        del log[:]
+        ev.append(rec)
+        if via_events and refused:
+            # an exception in an event handler stops the test machine: start over with a fresh one
+            _HM.pop('h', None)
+            break
+    return {'cfg': mcfg(), 'ev': ev, '_via_events': via_events}
+
+
+def handmade_multi():
+    P = lambda c, ms=NONE: {'op': 'pulse', 'c': c, 'ms': ms}
+    E = lambda c: {'op': 'enable', 'c': c}
+    T = lambda c, te=NONE: {'op': 'timed_enable', 'c': c, 'te': te}
+    D = lambda c: {'op': 'disable', 'c': c}
+    A = lambda d: {'op': 'adv', 'd': d}
+    res = []
+    for a, b in (('k', 'k2'), ('k2', 'k'), ('k', 'k21'), ('k21', 'k2'), ('k', 'kx'), ('k2', 'k_1'), ('k_1', 'k')):
+        res += [
+            # overlapping software-timed pulses: each coil is switched off at its own time
+            [P(a, 300), A(100), P(b, 600), A(100), A(100), A(300), A(300)],
+            [P(a, 600), A(100), P(b, 300), A(100), A(100), A(300), A(300)],
+            [P(a, 300), P(b, 300), A(300), A(300)],
+            # overlapping holds limited by max_hold_duration, the one released by the game while the other is held
+            [E(a), A(300), E(b), A(300), D(a), A(300), A(1000), A(1000)],
+            [E(a), A(300), E(b), A(300), D(b), A(300), A(1000), A(1000)],
+            [E(a), E(b), A(1000), A(1000)],
+            # a software-timed pulse of the one while the other is held, timed enables and short pulses in between
+            [E(a), A(100), P(b, 300), T(a), A(100), P(a), D(b), A(100), A(100), A(1000), A(1000)],
+            [P(a, 600), A(100), E(b), A(100), D(b), T(b), A(300), A(300), E(b), P(b, 300), A(300), A(1000)],
+        ]
+    # all the coils on output 1 of their board at once, and all of them
+    res += [
+        [P('k', 600), A(100), P('k2', 600), A(100), P('k21', 200), A(100), P('k21', 300), A(100), A(300), A(300)],
+        [E('k'), A(100), E('k2'), A(100), E('k21'), A(100), D('k2'), A(300), E('k2'), A(1000), A(1000), A(1000)],
+        [P(n, 300) for n in MNAMES] + [A(100)] + [E(n) for n in MNAMES] + [A(100), A(100), A(1000), A(1000)],
+    ]
+    return res
+
+
+def run_multi(ctx, wd):
+    """Several coils operated concurrently: design check of the product model, schedules, real Drivers, trace validation."""
+    q = ctx.quick
+    mdir = write_machine_multi(ctx.scratch)
+    subs = [('k', 'k2'), ('k', 'k21', 'kx')] if q else [('k', 'k2'), ('k', 'k2', 'k21'), ('k2', 'kx', 'k_1')]
+    steps = [300, 1000] if q else [100, 300, 1000]
+    write_mc_multi(wd, subs, 4, ms=[NONE, 300, 600], te=[NONE], steps=steps, maxtime=2400)
+    r = tlc.expect_ok(tlc.check(wd, 'CoilMultiMC', 'MMC.cfg', timeout=3000), 'CoilMulti design check')
+    ctx.add_tlc('CoilMultiMC', r, {'machines': [list(x) for x in subs], 'MaxOps': 4, 'steps': steps})
+    ctx.coverage['monitors'] += MPROPS + ['Multi' + x for x in MINVS]
+    write_mc_multi(wd, MSUBSETS, 14, steps=[30, 100, 200, 300, 500, 1000, 2000], maxtime=100000, props=False, name='MGen.cfg')
+    behs, _ = tlc.simulate(wd, 'CoilMultiMC', 'MGen.cfg', num=150 if q else 3000, depth=20 if q else 30, seed=ctx.seed + 51)
+    rnd = random.Random(ctx.seed + 2)
+    jobs = []
+    for b in behs:
+        refusal = any(x['err'] for s in b for x in s['st'].values())
+        jobs.append((mdir, [s['act'] for s in b], (not refusal) and rnd.random() < 0.3))
+    jobs += [(mdir, sch, k % 4 == 3) for k, sch in enumerate(handmade_multi())]
+    traces = harness.pmap(exec_multi, jobs, chunk=8, item_timeout=90)
+    ctx.log('multi-coil schedules executed: %d' % len(traces))
+    ctx.coverage['multi_coil_calls'] = sum(1 for t in traces for e in t['ev'] if e['op'] not in ('adv', 'crash'))
+    ctx.coverage['multi_coil_switch_offs_by_timer'] = sum(1 for t in traces for e in t['ev'] if e['op'] == 'adv'
+                                                          for cs in e['cmds'].values() for c in cs if c[0] == 'disable')
+    with open(wd + '/MTrace.cfg', 'w') as f:
+        f.write("""SPECIFICATION TSpec
+CONSTANTS
+  Configs <- TConfigs
+  NONE <- TNONE
+  MsVals = {}
+  TeVals = {}
+  Steps = {}
+  MaxTime = 100000000
+  MaxOps = 1000000
+INVARIANT Reporter
+INVARIANT RefuseNotCommand
+INVARIANT NothingOverdue
+CHECK_DEADLOCK FALSE
+""")
+    v = tlc.validate_traces(wd, 'CoilMultiTrace', 'MTrace.cfg', traces)
+    tlc.finish_diagnosis(wd, 'CoilMultiTrace', 'MTrace.cfg', traces, v)
+    ctx.add_trace_verdict('CoilMultiTrace', v, len(traces))
+    ctx.sample({'kind': 'multi-coil-trace', 'trace': traces[-1]['ev'][:6]})
+    for i, info in sorted(v.rejected.items()):
+        if info.get('line') is None:
+            continue
+        fe = info.get('failing_event') or {}
+        tr = traces[i]
+        sig = 'C08:multi:%s:%s' % (fe.get('op', '?'), classify_multi(fe, tr, info.get('line')))
+        ln = info.get('line') or 1
+        what = ('several coils operated concurrently: step %s of the trace is not explained by the product of independent coils '
+                '(CoilMulti: every coil has its own software pulse timer and hold watchdog; commands are [kind, pulse_ms, '
+                'pulse_power, hold_power, duration, time]): %s; steps before: %s; coils (platform/number): %s'
+                % (ln, brief(fe), [brief(e) for e in tr['ev'][max(0, ln - 7):max(0, ln - 1)]],
+                   {c['name']: '%s/%s' % (c['plat'], c['num']) for c in MTABLE}))
+        ctx.violation(sig, what, {'kind': 'multi', 'job': [jobs[i][1], jobs[i][2]], 'trace': tr, 'info': info})
+    ctx.assumptions += ['several coils: requests without max_wait_ms (no request is postponed by the power supply)']
+
+
+def brief(e):
+    """An event of a multi-coil trace without the coils that got no command."""
+    e = dict(e)
+    if isinstance(e.get('cmds'), dict):
+        e['cmds'] = {n: cs for n, cs in e['cmds'].items() if cs}
+    return e
+
+
+def classify_multi(fe, tr, line):
+    """Name what deviates in a step of a multi-coil trace (for stable finding signatures)."""
+    if fe.get('op') == 'crash':
+        return 'crash'
+    if fe.get('op') != 'adv':
+        others = [n for n, cs in fe.get('cmds', {}).items() if cs and n != fe.get('c')]
+        return 'command-at-another-coil' if others else 'own-command'
+    # time passed: compare the switch-offs seen with the ones the coils' own timers owe (replayed from the calls so far)
+    pend = {n: {} for n in MNAMES}     # coil -> {'sw': t, 'ho': t}
+    cf = {c['name']: c for c in MTABLE}
+    for e in tr['ev'][:line]:
+        for n, cs in e.get('cmds', {}).items():
+            for c in cs:
+                if c[0] == 'disable':
+                    pend[n].pop('ho', None)
+                    if pend[n].get('sw') == c[5]:
+                        pend[n].pop('sw')
+                elif c[0] == 'enable' and c[1] == 0 and e['op'] == 'pulse':
+                    pend[n]['sw'] = c[5] + (e['ms'] if e['ms'] != NONE else cf[n]['defPulseMs'])
+                elif c[0] == 'enable' and cf[n]['maxHoldDur']:
+                    pend[n].setdefault('ho', c[5] + cf[n]['maxHoldDur'])
+        if e is fe:
+            break
+    end = 1 + sum(e['d'] for e in tr['ev'][:line] if e['op'] == 'adv')
+    late = sorted(n for n in MNAMES for k, t in pend[n].items() if t <= end)
+    return 'switch-off-missing' if late else 'switch-off-differs'
+
+
 def run(ctx):
     mdir = write_machine(ctx.scratch)
     wd = tlc.prepare(ctx.scratch, 'Coil', 'coil')
     # (1) every value class on every configuration, two requests, coarse time
-    write_mc(wd, 'reduced' if ctx.quick else 'medium', 2, steps=[1000] if ctx.quick else [300, 1000], maxtime=3001)
+    # thorough: the 'medium' value sets with steps {300, 1000} do not finish within 50 minutes on 16 cores (measured in round 5:
+    # the thorough tier had never printed a verdict with them); the reduced value sets with the finer time steps take 1.5 min
+    write_mc(wd, 'reduced', 2, steps=[1000] if ctx.quick else [300, 1000], maxtime=3001)
     r = tlc.expect_ok(tlc.check(wd, 'CoilMC', 'MC.cfg', timeout=3000), 'Coil design check (values)')
     ctx.add_tlc('CoilMC values', r, {'configs': len(TABLE), 'pulse_ms classes': len(MS), 'power classes': len(POW), 'MaxOps': 2,
-                                     'value sets': 'reduced' if ctx.quick else 'medium'})
+                                     'value sets': 'reduced', 'steps': [1000] if ctx.quick else [300, 1000]})
     # (2) interleavings of requests, timers, the shared power supply (postponed requests) and changing defaults
     inter = dict(configs=(4, 6, 7, 9, 10), mw=(NONE, 495), other=(100,), defv=(10, 45), steps=[100, 1000], maxtime=3000)
     write_mc(wd, 'tiny', 3 if ctx.quick else 4, **inter)
@@ -787,6 +1149,7 @@ CHECK_DEADLOCK FALSE
                          '%s ms, power limits) allows: %s' % (tr['cfg']['maxHoldDur'], [e for e in tr['ev'][:info['line']]][-6:]))
             rp = {'kind': 'api', 'job': [jobs[i][1], jobs[i][2], jobs[i][3], jobs[i][4]], 'trace': tr, 'info': info}
         ctx.violation(sig, what, rp)
+    run_multi(ctx, wd)
     ctx.assumptions += ['commands are observed at the platform driver interface (hw_driver) and the rule interface of the virtual platform',
                         'the power supply is modelled as mpf/devices/power_supply_unit.py computes its busy time; max_wait_ms values '
                         'are chosen so that no wait ends exactly at a limit', 'digital_outputs are not coils and are not judged']
@@ -816,3 +1179,7 @@ def replay(ctx, data):
         mdir = write_machine(ctx.scratch)
         tr = exec_schedule((mdir, d['job'][0], d['job'][1], d['job'][2]) + tuple(d['job'][3:4]))
         print('replay trace:', tr['ev'])
+    elif d['kind'] == 'multi':
+        mdir = write_machine_multi(ctx.scratch)
+        tr = exec_multi((mdir, d['job'][0], d['job'][1]))
+        print('replay trace:', [brief(e) for e in tr['ev']])
